@@ -303,9 +303,22 @@ def run(ck, prog, ctx):
         if eb is None:
             continue
         reach = [prog.bodies[x] for x in prog.reachable_bodies([eb.id]) if x in prog.bodies and not prog.bodies[x].test]
+        # `self == *other` on references goes through std's blanket `impl PartialEq<&B> for &A`, which calls `<A as PartialEq<B>>::eq`
+        for rb_ in list(reach):
+            for _, t_ in rb_.calls():
+                m_ = re.match(r"^<&(.+) as std::cmp::PartialEq<&(.+)>>::(eq|ne)$", t_.callee.def_args or "")
+                if m_:
+                    inner = prog.body("<%s as std::cmp::PartialEq<%s>>::%s" % (m_.group(1), m_.group(2), m_.group(3))) or prog.body("<%s as std::cmp::PartialEq<%s>>::eq" % (m_.group(1), m_.group(2)))
+                    if inner is not None and inner.id != eb.id:
+                        reach += [prog.bodies[x] for x in prog.reachable_bodies([inner.id]) if x in prog.bodies and not prog.bodies[x].test and prog.bodies[x] not in reach]
         parses_ = any(is_parse(t_.callee) for rb_ in reach for _, t_ in rb_.calls())
         renders = [t_ for rb_ in reach for _, t_ in rb_.calls() if t_.callee.method in ("to_string", "format", "fmt", "write_fmt") and rb_.id == eb.id]
         nm = re.sub(r"^<term::hpotermid::HpoTermId as (std::cmp::|std::convert::)?", "", tid).replace(">::", "::")
+        hand_ = [rb_ for rb_ in reach if rb_.kind in ("Fn", "AssocFn") and not rb_.exported and not rb_.reachable and rb_.natural_loops() and any(t_.callee.method in ("as_bytes", "bytes", "chars", "char_indices") for _, t_ in rb_.calls())
+                 and any(st_.k == "assign" and st_.rv["k"] == "bin" and st_.rv["op"].startswith("Mul") and (st_.rv["r"].int_value() == 10 or st_.rv["l"].int_value() == 10) for _, st_ in rb_.stmts())]
+        if not parses_ and hand_ and not renders:
+            ck.undecided("ROLE", "text-entry/" + nm, "%s reads the text through the hand-written digit loop %s (no str::parse): that it accepts exactly what the number parser accepts is not decided" % (nm, hand_[0].short), where=eb.where())
+            continue
         ck.ob("ROLE", "text-entry/" + nm, parses_, "%s %s" % (nm, "reads the text through the number parser" if parses_ else "never parses the text%s: a text that spells the id differently from the canonical rendering ('HP:123') is no longer that id" % (" (it compares with the rendering, `%s`)" % renders[0].callee.method if renders else "")), where=eb.where())
 
     # the integer conversions either keep the value or fail: no silent truncation of ids above u32::MAX
